@@ -38,7 +38,7 @@ func c05(tier string) int {
 	if tier == "thorough" {
 		splans = []seq.Plan{{Family: "iso-restart", Params: "keys=1,slots=2", From: 1, To: 6}, {Family: "iso-restart", Params: "keys=2,slots=2,levels=RC.RR", From: 1, To: 5}}
 	}
-	return seqEnumCheck("C05", tier, 120*time.Second, 12*time.Minute, splans, plans,
-		"the full product of: 2-3 process lifetimes x open order of two databases in one process {A, B, AB, BA, A then B after A's writes} x write pattern per database and lifetime x abandoned open transaction x Close/Open inside a lifetime; every database is read (Get, GetKeys) after every open and every write and once more in a final process; per-database map model: committed state survives, open transactions vanish, every later acknowledged write wins immediately and after every later reopen; plus (family iso-restart) every sequential interleaving of transactions and autocommit writes to the stated depth followed by Close, a new process, Open and a full read — twice",
+	return seqEnumCheck("C05", tier, 240*time.Second, 15*time.Minute, splans, plans,
+		"the full product of: 2-3 process lifetimes x open order of two databases in one process {A, B, AB, BA, A then B after A's writes} x write pattern per database and lifetime x abandoned open transaction x Close/Open inside a lifetime; every database is read (Get, GetKeys) after every open and every write and once more in a final process; per-database map model: committed state survives, open transactions vanish, every later acknowledged write wins immediately and after every later reopen; plus (family iso-restart) every sequential interleaving of transactions and autocommit writes to the stated depth followed by Close, a new process, Open and a full read — twice; and five concurrent programs (two writers; RC commit vs write; delete vs write; snapshot commit of two keys vs writes; write vs collection pass) under the schedule explorer at 2 (3) deviations, each execution followed by Close, a new process and Open: the final reads before and after must agree",
 		append([]string{"a process lifetime ends with a clean Close of every database; the new process is emulated by re-initialising all package-level variables (generated VerifResetGlobals)"}, seqAssumptions[1:]...))
 }
